@@ -108,6 +108,15 @@ def impl_main(payload):
                     return [codes[key]] if True else None
                 c0 = tuple(float(v) for v in g.get_local_optimization_params())
                 needs = bool(g.needs_local_optimization())
+                if c.get("stale") == 1:
+                    # history: the individual was evaluated earlier (fitness stored), its constants were set since
+                    g.fitness = 987654.321
+                elif c.get("stale") == 2 and not needs:
+                    # history: evaluated through this very wrapper on other constants, stored as Evaluation does, then re-set
+                    g.set_local_optimization_params(tuple(float(i) - 3.25 for i in range(L)))
+                    g.fitness = lo(g)
+                    g.set_local_optimization_params(c0)
+                    rec["calls"] = []
                 rec["calls"] = []
                 before_method = opt.options["method"]
                 try:
@@ -157,7 +166,7 @@ def impl_main(payload):
                 case = dict(kind=0, table=table, c0=code(c0) if L else [], needs=needs, r1=runs[0], r2=runs[1])
                 if L == 0:
                     case["c0"] = []
-                results.append(dict(case=case, out=out, viol=viol, meta=dict(eq=eqs[c["eq"]], method=c["method"], fallback=len(rec["calls"]) > 1)))
+                results.append(dict(case=case, out=out, viol=viol, meta=dict(eq=eqs[c["eq"]], method=c["method"], fallback=len(rec["calls"]) > 1, stale=c.get("stale", 0))))
             else:
                 # EquationRegressor.fit with a scripted fit function: arbitrary fitness sequences incl. NaN
                 seq = c["fits"]
@@ -195,7 +204,8 @@ def check(rep, proof):
         eq = rng.randrange(6)
         pts = rng.choice([3, 8, 12]) if eq != 5 else rng.choice([3, 8])      # 4 constants, 3 points: lm rejects the shape -> BFGS fallback
         cases.append(dict(kind=0, seed=rng.randrange(10 ** 6), eq=eq, method=methods[i % 8],
-                          metric=rng.choice(["mae", "mse", "rmse"]), needs=rng.random() < 0.8, points=pts))
+                          metric=rng.choice(["mae", "mse", "rmse"]), needs=rng.random() < 0.8, points=pts,
+                          stale=rng.choice([0, 0, 1, 2])))
     for i in range(6 if rep.tier == "quick" else 60):      # more constants than data points: lm raises TypeError -> BFGS fallback
         cases.append(dict(kind=0, seed=rng.randrange(10 ** 6), eq=5, method="lm", metric="mse", needs=True, points=3))
     for i in range(400 if rep.tier == "quick" else 20000):
@@ -216,13 +226,15 @@ def check(rep, proof):
         rule="real LocalOptFitnessFunction + ScipyOptimizer on 6 equations (0-4 constants, one that produces NaN residuals) x 8 scipy "
              "methods x 3 metrics with scipy.optimize wrapped to record trial vectors / results / TypeError (3 data points with 4 "
              "constants force the lm -> BFGS fallback); the recorded oracle is replayed through Model/LocalOpt.v; the returned float is "
-             "compared bit-for-bit with an independent base-fitness evaluation of the final constants; EquationRegressor.fit is driven "
+             "compared bit-for-bit with an independent base-fitness evaluation of the final constants; half the individuals arrive with a "
+             "fitness already stored for other constants (set by hand, or by an earlier call of the same wrapper); EquationRegressor.fit is driven "
              "with scripted fitness sequences (NaN, ties) and compared with the model's best-of-retries bookkeeping",
         samples=[lo[0]["case"], lo[0]["meta"]] if lo else [],
         correspondence=dict(cases=len(results), disagreements=len(bad)),
         oracle_violations=len(oracle_bad),
         distribution=dict(wrapper_calls=len(lo), fallbacks=sum(1 for r in lo if r["meta"].get("fallback")),
                           not_requested=sum(1 for r in lo if not r["case"]["needs"]),
+                          stored_fitness_beforehand=sum(1 for r in lo if r["meta"].get("stale")),
                           regressor_sequences=len(results) - len(lo)),
     )
     rep.assumptions += [
